@@ -182,7 +182,7 @@ def run_plan(w, cfg, faults, ref, tape, gens, then=None):
     pub = {fd["name"]: fd.get("public_name") or fd["name"] for fd in w["functions"]}  # the name pipefunc knows a function by
     with C.Scratch() as root, warnings.catch_warnings():
         warnings.simplefilter("ignore")
-        sim = C.new_sim(tape, root, preempt=cfg["preempt"])
+        sim = C.new_sim(tape, root, preempt=cfg["preempt"], step_cap=C.step_cap_for(w))
         sim.as_mp_child = bool(cfg.get("as_mp_child"))
         import threading as _threading
 
